@@ -238,6 +238,13 @@ def run_check(prop, pid, tier, seed):
                 violations.extend(pv)
             elif ctx.binary and not any(v.kind == "proof" and "make" in v.what for v in violations):
                 cases = prop.gen_cases(ctx)
+                # MoneyFlowIndex branches on the sign bit of values popped from its window; the sign of a NaN is not modelled
+                # (Coq has one NaN; x86 produces negative default NaNs), so after non-finite / overflowing inputs the internal
+                # split between the two running totals can differ while every output agrees: compare outputs only
+                for c_ in cases:
+                    if c_.meta.get("ind") == "MFI" and c_.dump and any(
+                            isinstance(v, float) and (v != v or abs(v) > 1e300) for o in c_.ops for v in o[2:] if o[0] in ("n", "b", "i")):
+                        c_.dump = ()
                 run_harness(ctx.binary, cases, pid)
                 # --- T1: bit-exact agreement with the float instance of the model
                 t1 = coq_check_cases(cases, pid)
